@@ -153,7 +153,9 @@ def run(ctx):
             nerr += v["nErr"]
             ndeep += v["nDeep"]
     # binding self-test
-    good = [r for r in recs if r["outs"] and r["outs"][0]["kind"] == "ok" and len(r["outs"][0]["ran"]) >= 2 and not r["failing"]]
+    badids = {r["id"] for r in bad}
+    good = [r for r in recs if r["id"] not in badids and r["outs"] and r["outs"][0]["kind"] == "ok" and len(r["outs"][0]["ran"]) >= 2 and not r["failing"]
+            and len(r["outs"]) == 1]
     st = None
     if good:
         c = json.loads(json.dumps(good[0]))
